@@ -808,10 +808,14 @@ func (ps *PruningStorer) changeEpochWithExisting(epoch uint32) error {
 
 	for _, p := range persisters {
 		if p.getIsClosed() {
-			_, err = ps.persisterFactory.Create(p.path)
+			var persister storage.Persister
+			persister, err = ps.persisterFactory.Create(p.path)
 			if err != nil {
 				return err
 			}
+			// the re-created persister has to replace the closed one, otherwise the epoch
+			// becomes active with a closed persister (same as in extendActivePersisters)
+			p.setPersisterAndIsClosed(persister, false)
 		}
 
 		activePersisters = append(activePersisters, p)
